@@ -138,6 +138,22 @@ def run(tier, seed, replay=None):
                 rep.known_finding("C01-fo76-shader-type", c)
             else:
                 fails.append({"case": c, "type": n, "what": "raw save of a generated file is not a fixed point / does not reload", "impl": l[:1500]})
+    # ---- file level: BSTriShape with full-precision vertices carrying extra floats, built through the public API
+    # (a vertex layout no sample file has): the file the library writes must be a fixed point and keep the floats
+    if replay:
+        ecases = [r["case"]] if r.get("case", "").startswith("bsextra") else []
+    else:
+        ecases = ["bsextra ver=%s n=%d k=%d" % (be.VERS[vn], nv, k) for vn in ("SSE", "FO4", "FO76") for nv in (3, 7) for k in (0, 1, 2, 3)]
+    for c, (_, l, crash) in zip(ecases, be.par_run(plain, "blocks", ecases, timeout=120)):
+        if crash is not None or l is None or l.startswith("I=EXC") or "r4=" not in l:
+            fails.append({"case": c, "what": "saving/loading an API-built BSTriShape with extra vertex floats crashed or failed", "impl": l, "crash": crash})
+            continue
+        kv = be.kv_of(l)
+        stats["api_extra_float_files"] = stats.get("api_extra_float_files", 0) + 1
+        want = c.split("k=")[1]
+        bad = [rk for rk in ("r2", "r3", "r4") if kv[rk].split(":")[2] != "1" or kv[rk].split(":")[3] != want]
+        if bad:
+            fails.append({"case": c, "type": "BSTriShape", "what": "a file the library wrote (BSTriShape with %s extra floats per vertex) is not a fixed point of load+save, or loses/gains floats (%s)" % (want, ",".join(bad)), "impl": l[:600]})
     for f in fails[:10]:
         rep.violation("round trip: " + f["what"], dict(f, family="blocks"))
     if mism and not fails:
